@@ -42,7 +42,7 @@ pub fn decode(data: &[u8]) {
         });
         i += 1;
     }
-    let case = Case { ty, gen: Gen::Raw(data[i..].to_vec()), atts, via, fd0: false };
+    let case = Case { ty, gen: Gen::Raw(data[i..].to_vec()), atts, via, fd0: false, keep_original: false };
     // fresh thread per case, like the registered check (per-thread attachment side tables)
     let r = std::thread::spawn(move || c16::run_case(&case)).join();
     match r {
